@@ -46,9 +46,11 @@ def random_spin_chains(rng, L):
 
 
 class History:
-    def __init__(self, ctx, rng, maxsteps):
+    def __init__(self, ctx, rng, maxsteps, only_ops=None, zero_states=False):
         self.ctx = ctx
         self.rng = rng
+        self.only_ops = only_ops
+        self.zero_states = zero_states
         self.name = str(rng.choice(MODELS))
         d = gen.MODEL_D[self.name]
         lmax = 6
@@ -87,6 +89,8 @@ class History:
     def new_state(self):
         rng = self.rng
         how = str(rng.choice(['random', 'random', 'max', 'from_vector', 'fill', 'unreachable-sector', 'disjoint-bond']))
+        if self.zero_states:
+            how = str(rng.choice(['unreachable-sector', 'disjoint-bond']))
         if how in ('unreachable-sector', 'disjoint-bond'):
             # exactly-zero states: the announced total sector cannot be reached / an inner bond shares no charge with its neighbours
             if how == 'disjoint-bond':
@@ -136,7 +140,7 @@ class History:
         rng = self.rng
         ctx = self.ctx
         op = str(rng.choice(['orth', 'compress', 'addsub', 'apply', 'splitmerge', 'tdvp1', 'tdvp2', 'dmrg1', 'dmrg2', 'new', 'zeroq', 'mpo-arith', 'mpo-orth', 'mpo-new'],
-                            p=[.10, .10, .09, .08, .08, .06, .06, .06, .06, .06, .04, .09, .06, .06]))
+                            p=[.10, .10, .09, .08, .08, .06, .06, .06, .06, .06, .04, .09, .06, .06])) if self.only_ops is None else str(rng.choice(self.only_ops))
         detail = {'history': self.hist + [op], 'model': self.name, 'L': self.L}
         if op == 'orth':
             o = self.pick('mps')
@@ -319,9 +323,16 @@ class History:
         return True
 
 
-def history_case(ctx, idx, rng):
+def zero_state_case(ctx, idx, rng):
+    """Directed histories on EXACTLY ZERO states (unreachable total sector, an inner bond that shares no charge with its neighbours, psi - psi): repeated
+    split+merge, orthonormalisation, compression and sums -- the dummy-bond branches of the block-sparse QR / SVD (matrices without common charges, without
+    rows or columns) are entered again and again; the class invariant must hold after every step."""
+    history_case(ctx, idx, rng, only_ops=['splitmerge', 'splitmerge', 'orth', 'compress', 'addsub', 'splitmerge', 'new'], zero_states=True)
+
+
+def history_case(ctx, idx, rng, only_ops=None, zero_states=False):
     maxsteps = 12 if ctx.tier == 'quick' else 30
-    h = History(ctx, rng, maxsteps)
+    h = History(ctx, rng, maxsteps, only_ops, zero_states)
     ctx.cur_info = {'model': h.name, 'L': h.L}
     h.check_all(0)
     nsteps = int(rng.integers(3, maxsteps + 1))
@@ -338,7 +349,7 @@ def history_case(ctx, idx, rng):
             ctx.event('op:' + h.hist[-1].split('-')[0])
     kinds = [x.split('-')[0] for x in h.hist]
     nz = any(o.kind == 'mps' and o.shadow is not None and np.linalg.norm(o.shadow) > 1e-12 for o in h.pool)
-    ctx.case((h.name,) + tuple(h.hist), nontrivial=(len(h.hist) >= 3 and len(set(kinds)) >= 2 and nz),
+    ctx.case((h.name,) + (('zero-states',) if zero_states else ()) + tuple(h.hist), nontrivial=(len(h.hist) >= 3 and len(set(kinds)) >= 2 and (nz or zero_states)),
              sample={'model': h.name, 'L': h.L, 'history': h.hist})
 
 
@@ -537,6 +548,7 @@ SPEC = {
     'deciding': ['ctor.class-invariant', 'history.class-invariant', 'history.shadow-model', 'history.total-charge-kept'],
     'workloads': [
         Workload('histories', history_case, quick=600, thorough=36000),
+        Workload('zero-states', zero_state_case, quick=150, thorough=9000),
         Workload('constructors', constructor_case, quick=420, thorough=42000),
         Workload('label-mutation', label_mutation_case, quick=360, thorough=36000),
         Workload('suite-soak', soak_case, quick=0, thorough=1, shardable=False),
